@@ -97,9 +97,28 @@ def recovery(rep, prog, P):
     res_all, _o, _s = run_regions(fs)
     rep.rule(P + '.5', 'record invariant kept by every cell of the dispatch matrix: no cached icon => recorded icon size 0 (assumed of every entry record)', floor=9)
     icon_invariant(rep, P + '.5', fs, res_all)
+    # the whole argument rests on "everything the responder remembers lives in the interface record": any other mutable
+    # static storage of the core (a cache in a TLV writer, a function-local static) survives every Reset
+    from .c17 import mutable_statics
+    from .frame_common import iface_list_name
+    import os as _os
+    from ..facts import REPO as _REPO
+    LIST = iface_list_name(prog)
+    rep.rule(P + '.6', 'no state outside the record: the core has no mutable static storage besides the list of interface records (such state would survive a Reset)', floor=1)
+    nstat = 0
+    for ixx in prog.index.values():
+        for n in mutable_statics(ixx):
+            nstat += 1
+            okst = n.get('name') == LIST and n.get('_fn') is None
+            rep.check(okst, P + '.6', 'static|%s|%s' % (_os.path.relpath(n['_file'], _REPO), n.get('name')),
+                      'the core keeps mutable static storage `%s`%s outside the interface record: a Reset does not clear it, so what it remembers (from before the Reset, '
+                      'or from a fault) keeps influencing later frames' % (n.get('name'), ' (in %s)' % n['_fn'] if n.get('_fn') else ''), node=n, function=n.get('_fn'))
+    if not nstat:
+        rep.broke('no static storage found at all (the list of interface records was expected)')
     res = {'topo.rest': res_all['topo.rest']}
     srec = fs.srec
-    structural = {'iface_ctx', 'next'}
+    from .frame_common import record_field
+    structural = {record_field(srec, 'iface_ctx')[0], record_field(srec, 'next')[0]}
     post = None
     nreset = 0
     for st, ret in res['topo.rest']:
